@@ -1,79 +1,3 @@
-(* GENERATED by tools/translate_cond.py from class Event / class Condition in /repo's source on every run of bin/check C11. *)
-From AV Require Import Base Lock EventCond CondImp.
-
-Definition ev_set_entry : stmt :=
-  SInnerSet.
-
-Definition ev_wait_checkpoint_resumed : stmt :=
-  SSkip.
-
-Definition ev_wait_checkpoint_cancelled : stmt :=
-  SReraise.
-
-Definition ev_wait_inner_resumed : stmt :=
-  SSkip.
-
-Definition ev_wait_inner_cancelled : stmt :=
-  SReraise.
-
-Definition ev_wait_entry : stmt :=
-  (SIf CInnerIsSet (SSuspend AwCheckpoint) (SSuspend AwInner)).
-
-Definition ev_is_set_cond : cond := CInnerIsSet.
-
-Definition cond_check_acquired_entry : stmt :=
-  (SIf (CNot CHolder) (SRaise ERuntime) SSkip).
-
-Definition cond_release_entry : stmt :=
-  SLockRelease.
-
-Definition cond_acquire_nowait_entry : stmt :=
-  SLockAcquireNowait.
-
-Definition cond_acquire_lock_resumed : stmt :=
-  SSkip.
-
-Definition cond_acquire_lock_cancelled : stmt :=
-  SReraise.
-
-Definition cond_acquire_entry : stmt :=
-  (SAwaitLock false false).
-
-Definition cond_notify_entry : stmt :=
-  (SSeq (SCall cond_check_acquired_entry) (SForRange (SSeq (STry SPopWaiter EIndex SBreak SSkip) SEventSet))).
-
-Definition cond_notify_all_entry : stmt :=
-  (SSeq (SCall cond_check_acquired_entry) (SSeq (SForWaiters SEventSet) SClearWaiters)).
-
-Definition cond_wait_event_resumed : stmt :=
-  (SAwaitLock true false).
-
-Definition cond_wait_event_cancelled : stmt :=
-  (SSeq (SIf (CNot CEvIsSet) SRemoveWaiter (SIf CWaitersNonEmpty SPopSet SSkip)) (SSeq (SAwaitLock true true) (SRaise ECancelled))).
-
-Definition cond_wait_reacq_resumed : stmt :=
-  SSkip.
-
-Definition cond_wait_reacq_cancelled : stmt :=
-  SReraise.
-
-Definition cond_wait_reacq_exc_resumed : stmt :=
-  (SRaise ECancelled).
-
-Definition cond_wait_reacq_exc_cancelled : stmt :=
-  SReraise.
-
-Definition cond_wait_entry : stmt :=
-  (SSeq SCkIf (SSeq (SCall cond_check_acquired_entry) (SSeq SNewEvent (SSeq SAppendWaiter (SSeq (SCall cond_release_entry) (SSuspend AwEvent)))))).
-
-Definition cond_locked_cond : cond := CLockLocked.
-
-Definition event_prog : eprog :=
-  mkeprog ev_set_entry ev_is_set_cond ev_wait_entry ev_wait_checkpoint_resumed ev_wait_checkpoint_cancelled
-          ev_wait_inner_resumed ev_wait_inner_cancelled.
-
-Definition cond_prog : cprog :=
-  mkcprog cond_acquire_entry cond_acquire_lock_resumed cond_acquire_lock_cancelled cond_acquire_nowait_entry
-          cond_release_entry cond_notify_entry cond_notify_all_entry cond_wait_entry cond_wait_event_resumed
-          cond_wait_event_cancelled cond_wait_reacq_resumed cond_wait_reacq_cancelled
-          cond_wait_reacq_exc_resumed cond_wait_reacq_exc_cancelled cond_locked_cond.
+(* translator refused *)
+From AV Require Import Base CondImp.
+Definition refused : False := "translate_cond REFUSED: cond_wait: line 360: await in a loop, a try body, the handler of an await or a synchronous method `await self.acquire()`".
